@@ -40,7 +40,7 @@ var props = map[string]propSpec{
 	"C12": {Engine: "world", QuickRuns: 3000, QuickSecs: 60, ThoroughS: 600, Components: worldComponents, MinReach: []string{"l5_tamper_judged"}},
 	// C13 says a request is handled under the POLICY of the upstream its Host names: at the login callback that is C11.A1
 	// evaluated with the rules of the route the reference model matched
-	"C13": {Engine: "world", Owns: []string{"C11.A1-login-iff-admitted"}, Cover: []string{"C01.A2"}, QuickRuns: 3000, QuickSecs: 60, ThoroughS: 600, Components: worldComponents, MinReach: []string{"cross_host_cookie_refused"}},
+	"C13": {Engine: "world", Owns: []string{"C11.A1-login-iff-admitted", "C06.A2-bound-to-host"}, Cover: []string{"C01.A2"}, QuickRuns: 3000, QuickSecs: 60, ThoroughS: 600, Components: worldComponents, MinReach: []string{"cross_host_cookie_refused"}},
 	"C14": {Engine: "world", QuickRuns: 3000, QuickSecs: 60, ThoroughS: 600, Components: worldComponents, MinReach: []string{"c14_load_refused"}},
 	"C17": {Engine: "sched", Also: "world", AlsoRuns: 1500, Cover: []string{"schedule|", "C17"}, QuickRuns: 20000, QuickSecs: 40, ThoroughS: 600, Components: schedComponents,
 		MinReach: []string{"answer_from_cache", "partial_cache_fallback", "localcache_hit", "refresh_loop_started", "refresh_loop_already_running", "bounded_progress_checked", "porcupine_ok"}},
